@@ -6,7 +6,7 @@ par=${1:-4}; pat=${2:-.}
 cd "$(dirname "$0")/.."
 out=$(mktemp -d /tmp/seedregress-XXXXXX)
 one() {
-  d=$1; out=$2
+  d=$(cd "$1" && pwd); out=$2
   id=$(basename "$d")
   work=$(mktemp -d /tmp/seedrun-XXXXXX)
   cp -a /repo "$work/chg"
@@ -14,7 +14,7 @@ one() {
   checks=$(python3 -c "import json,sys; print(' '.join(x.strip() for x in json.load(open('$d/meta.json'))['caught_by'].split(',')))")
   res=""
   for c in $checks; do
-    o=$(MASA_REPO="$work/chg" VERIF_EVIDENCE_DIR="$work/ev" VERIF_REPLAY_DIR="$work/rp" ./check "$c" --tier quick 2>&1); rc=$?
+    o=$(cd /verif && MASA_REPO="$work/chg" VERIF_EVIDENCE_DIR="$work/ev" VERIF_REPLAY_DIR="$work/rp" ./check "$c" --tier quick 2>&1); rc=$?
     n=$(echo "$o" | grep -c '^VIOLATION')
     res="$res $c:rc=$rc:violations=$n"
   done
